@@ -6,6 +6,7 @@ pub mod c19;
 pub mod px;
 pub mod c18;
 pub mod c17;
+pub mod c01;
 pub mod c02;
 pub mod c03;
 pub mod c05;
@@ -45,6 +46,7 @@ pub fn suites() -> Vec<(&'static str, Suite)> {
         ("grad_new", c15::run_grad_new as Suite),
         ("grad_px", c15::run_grad_px as Suite),
         ("pat_px", c16::run_pat_px as Suite),
+        ("api_fuzz", c01::run_api_fuzz as Suite),
         ("stroke_geo", c05::run_stroke_geo as Suite),
         ("gather", c16::run_gather as Suite),
         ("stroker_hist", c20::run_stroker_hist as Suite),
